@@ -6,6 +6,7 @@ import SeqVerif.Consistency.ApiSearchCons
 import SeqVerif.Consistency.BinSearch
 import SeqVerif.Consistency.BinSearchSort
 import SeqVerif.Consistency.Borders
+import SeqVerif.Consistency.BudgetCons
 import SeqVerif.Consistency.BufWriterCons
 import SeqVerif.Consistency.BulkConfigCons
 import SeqVerif.Consistency.BulkIDCons
@@ -28,7 +29,9 @@ import SeqVerif.Consistency.FilterStats
 import SeqVerif.Consistency.FracInfoFetch
 import SeqVerif.Consistency.FracRange
 import SeqVerif.Consistency.GroupIDs
+import SeqVerif.Consistency.HandlerRetry
 import SeqVerif.Consistency.Handover
+import SeqVerif.Consistency.HandoverQueue
 import SeqVerif.Consistency.Hist
 import SeqVerif.Consistency.IdOrder
 import SeqVerif.Consistency.IdsLookup
@@ -37,6 +40,7 @@ import SeqVerif.Consistency.Int64
 import SeqVerif.Consistency.InverserPool
 import SeqVerif.Consistency.Keywords
 import SeqVerif.Consistency.LexerClasses
+import SeqVerif.Consistency.LoadOrder
 import SeqVerif.Consistency.LoaderCons
 import SeqVerif.Consistency.MergeAggsCons
 import SeqVerif.Consistency.MergeQPR
@@ -48,6 +52,7 @@ import SeqVerif.Consistency.NumToken
 import SeqVerif.Consistency.NumVal
 import SeqVerif.Consistency.NumValParser
 import SeqVerif.Consistency.PNot
+import SeqVerif.Consistency.PageContract
 import SeqVerif.Consistency.Paginate
 import SeqVerif.Consistency.Positions
 import SeqVerif.Consistency.ProtoDocs
